@@ -15,7 +15,12 @@ code's node-pair tables are the residual network): returned flow dict equals the
 """
 from __future__ import annotations
 
-from core import Driver, Infra, load_corpus
+import pathlib as _pl
+import sys as _sys
+
+_sys.path.insert(0, str(_pl.Path(__file__).resolve().parent.parent))   # (for `python harness/props/C09.py --selftest`)
+
+from core import Driver, Infra, load_corpus  # noqa: E402
 from pool import err_kind, run_pool
 from props import flow_common as fc
 
@@ -33,9 +38,10 @@ ASSUMPTIONS = [
     "the implementation's pooled dict is split over parallel arcs cheapest-first by the harness before the verified "
     "checker runs (any other split costs at least as much, so verdicts on capacity/balance/optimality are unaffected)",
     "excluded region: negative-cost cycles, negative capacities, negative demand, non-integer data",
-    "[S] ssp_certifies (the model always ends with a certificate the checker accepts) is not proved; the driver runs "
-    "the certifying wrapper (ssp_sound: every answer handed out is right) and 'no certified answer' on an explored "
-    "input is an infrastructure error, never a verdict",
+    "[S] ssp_certifies is proved in part (ssp_certifies_partial: every feasible / infeasible answer of the search on an "
+    "s-t instance is accepted by the verified checker, for every input); not proved: that the search never ends without "
+    "an answer when there is no negative cycle, and the transshipment reduction. The driver runs the certifying wrapper "
+    "(ssp_sound); 'no certified answer' on an explored input is an infrastructure error, never a verdict",
 ]
 RULE = ("networks of 2..6 nodes (8 thorough), <= 12 arcs (16), costs -3..6 built as reduced cost >= 0 plus a potential "
         "difference (no negative cycle), capacities 0..6 with zero-capacity arcs, parallel arcs of equal and different "
@@ -595,7 +601,8 @@ def run_impl(cases):
     return outs
 
 
-def run_cases(ctx, cases):
+def evaluate(cases, ctx=None, twins_too=True):
+    """run implementation(s) and model on `cases`; per case the list of failed R_prop clauses"""
     # node numbering = iteration order of the code's `nodes` set (workers are forked from this process,
     # so str hashes and therefore set orders coincide; the worker reports its own order as a cross-check)
     twins, twin_of, meta = [], {}, []
@@ -605,7 +612,7 @@ def run_cases(ctx, cases):
             order = _set_order(fc.graph_dict(c["graph"]), c["source"], c["sink"])
             idx, raw = mcf_instance(c, order)
             s, t, d = idx[c["source"]], idx[c["sink"]], c["demand"]
-            if s != t and d >= 0:   # every s-t instance also goes to network_simplex (common instances)
+            if s != t and d >= 0 and twins_too:   # every s-t instance also goes to network_simplex (common instances)
                 sup = [0] * len(idx)
                 sup[s] += d
                 sup[t] -= d
@@ -647,14 +654,128 @@ def run_cases(ctx, cases):
             else:
                 reqs.append(["mcf_ts", c["n"], arcs, c["supplies"], impls])
         meta[ci] = meta[ci] + (arcs, problems)
-    replies = Driver("Flow").run(reqs, chunks=8)
+    replies = Driver("Flow").run(reqs, chunks=8 if len(reqs) > 200 else 1)
+    res = []
     for ci, (c, o, rp) in enumerate(zip(cases, outs, replies)):
         if rp and rp[0] == "error":
             raise Infra(f"model rejected request: {rp} for {c}")
+        col = fc.Collector(ctx)
         if c["fn"] == "solve_assignment":
-            judge_assign(ctx, c, o, meta[ci][-1][0], rp)
+            judge_assign(col, c, o, meta[ci][-1][0], rp)
         else:
-            judge(ctx, c, o, touts[twin_of[ci]] if ci in twin_of else None, meta[ci], rp)
+            judge(col, c, o, touts[twin_of[ci]] if ci in twin_of else None, meta[ci], rp)
+        res.append(col.fails)
+    return res
+
+
+# ---------------------------------------------------------------------------
+# shrinking (drop arcs / nodes / rows, lower capacities, costs, demands while the same class still fails)
+# ---------------------------------------------------------------------------
+
+def _no_negative_cycle(n, arcs):
+    arcs = [tuple(a) for a in arcs]
+    return fix_negative_cycles(n, arcs) == arcs
+
+
+def _towards_zero(v):
+    out = []
+    if v != 0:
+        out.append(0)
+    if abs(v) > 1:
+        out.append(1 if v > 0 else -1)
+        out.append(v - 1 if v > 0 else v + 1)
+    return out
+
+
+def candidates(case):
+    import copy
+    fn = case["fn"]
+    if fn == "network_simplex":
+        arcs, sup, n = case["arcs"], case["supplies"], case["n"]
+        for i in range(len(arcs) - 1, -1, -1):
+            c = copy.deepcopy(case)
+            del c["arcs"][i]
+            yield f"drop arc {arcs[i]}", c
+        used = {a[0] for a in arcs} | {a[1] for a in arcs}
+        for x in range(n - 1, -1, -1):
+            if x not in used and sup[x] == 0 and n > 1:
+                yield f"drop node {x}", {**case, "n": n - 1, "supplies": sup[:x] + sup[x + 1:],
+                                         "arcs": [[a[0] - (a[0] > x), a[1] - (a[1] > x), a[2], a[3]] for a in arcs]}
+        for i in range(len(sup)):
+            for j in range(len(sup)):
+                if sup[i] > 0 and sup[j] < 0:
+                    c = copy.deepcopy(case)
+                    c["supplies"][i] -= 1
+                    c["supplies"][j] += 1
+                    yield f"one unit less from {i} to {j}", c
+        for i, a in enumerate(arcs):
+            for nv in sorted({0, 1, a[2] - 1}):
+                if 0 <= nv < a[2]:
+                    c = copy.deepcopy(case)
+                    c["arcs"][i][2] = nv
+                    yield f"capacity of {a}: -> {nv}", c
+            for nv in _towards_zero(a[3]):
+                c = copy.deepcopy(case)
+                c["arcs"][i][3] = nv
+                if _no_negative_cycle(n, c["arcs"]):
+                    yield f"cost of {a}: -> {nv}", c
+    elif fn == "min_cost_flow":
+        g = case["graph"]
+        for i in range(len(g) - 1, -1, -1):
+            for j in range(len(g[i][1]) - 1, -1, -1):
+                c = copy.deepcopy(case)
+                a = c["graph"][i][1].pop(j)
+                yield f"drop arc {g[i][0]!r}->{a[0]!r}", c
+            if not g[i][1]:
+                c = copy.deepcopy(case)
+                del c["graph"][i]
+                yield f"drop key {g[i][0]!r}", c
+        if case["demand"] > 0:
+            yield "demand - 1", {**case, "demand": case["demand"] - 1}
+        for i in range(len(g)):
+            for j, a in enumerate(g[i][1]):
+                for k, vals in ((1, [nv for nv in sorted({0, 1, a[1] - 1}) if 0 <= nv < a[1]]), (2, _towards_zero(a[2]))):
+                    for nv in vals:
+                        c = copy.deepcopy(case)
+                        c["graph"][i][1][j][k] = nv
+                        if k == 2:
+                            idx = fc.index_map(c["graph"], extra=(c["source"], c["sink"]))
+                            if not _no_negative_cycle(len(idx), fc.arcs_in_order(c["graph"], idx, with_cost=True)):
+                                continue
+                        yield f"{'capacity' if k == 1 else 'cost'} {g[i][0]!r}->{a[0]!r}: {a[k]} -> {nv}", c
+    else:
+        mat = case["matrix"]
+        n = len(mat)
+        m = len(mat[0]) if n else 0
+        for i in range(n - 1, -1, -1):
+            yield f"drop row {i}", {**case, "matrix": mat[:i] + mat[i + 1:]}
+        for j in range(m - 1, -1, -1):
+            yield f"drop column {j}", {**case, "matrix": [r[:j] + r[j + 1:] for r in mat]}
+        for i in range(n):
+            for j in range(m):
+                for nv in _towards_zero(mat[i][j]):
+                    c = copy.deepcopy(case)
+                    c["matrix"][i][j] = nv
+                    yield f"C[{i}][{j}]: {mat[i][j]} -> {nv}", c
+
+
+def shrink_one(case, failure):
+    """shrink the instance a failure was seen on (for a network_simplex run on a min_cost_flow instance: the
+    network_simplex instance itself); calls that do not return are not shrunk (every candidate costs the limit)"""
+    import time
+    fn, klass, _, rep = failure
+    if klass.startswith("no_return"):
+        return [], [], case
+    start = rep["case"]
+    if "from" in start:
+        start = {"fn": "network_simplex", "n": start["n"], "arcs": start["arcs"], "supplies": start["supplies"]}
+    small, history = fc.shrink(start, (fn, klass), candidates, lambda cs: evaluate(cs, None, twins_too=False),
+                               time.time() + 15.0)
+    return (evaluate([small], None, twins_too=False)[0] if history else []), history, rep["case"]
+
+
+def run_cases(ctx, cases, do_shrink=True):
+    fc.report(ctx, cases, evaluate(cases, ctx), shrink_one if do_shrink else None)
 
 
 def assignment_answer(case, out, n, m):
@@ -797,8 +918,10 @@ def _summarise(ctx):
 
 def run(ctx, budget):
     ctx.cov["rule"] = RULE
-    ctx.cov["missing_theorems"] = ["ssp_certifies [S]: the SSP model emits a valid certificate on every input "
-                                   "(replaced by checking the certificate of every explored input in Lean)"]
+    ctx.cov["missing_theorems"] = ["ssp_certifies [S], remaining part: with no negative-cost cycle the SSP search never ends "
+                                   "with status negcycle (acyclic Bellman-Ford parents, convergence of the potentials), and "
+                                   "the same for the super-source reduction of transshipment instances; proved part: "
+                                   "ssp_certifies_partial. Every explored input is certificate-checked in Lean instead"]
     big = ctx.tier == "thorough"
     cases = list(edge_cases()) + [c["case"] for c in load_corpus("C09")]
     n = 1000 * budget if budget == 1 else 700 * budget
@@ -817,5 +940,53 @@ def replay(ctx, body):
     c = body["case"]
     if "from" in c:       # a network_simplex twin of a min_cost_flow case: replay the network_simplex instance
         c = {"fn": "network_simplex", "n": c["n"], "arcs": c["arcs"], "supplies": c["supplies"]}
-    run_cases(ctx, [c])
+    run_cases(ctx, [c], do_shrink=False)
     _summarise(ctx)
+
+
+# ---------------------------------------------------------------------------
+# self-test of the alarm policy (see corpus/C09/selftest/README.txt)
+# ---------------------------------------------------------------------------
+
+def selftest():
+    """A network_simplex failure on a run WITHOUT observed basis-tree corruption must be a VIOLATION."""
+    import json
+    import os
+    import subprocess
+    from pathlib import Path
+    verif = Path(__file__).resolve().parent.parent.parent
+    repo = os.environ.get("SOLVOR_REPO", "/repo")
+    wt = "/tmp/flow_selftest_wt"
+    st = verif / "corpus" / "C09" / "selftest"
+    ev = verif / "evidence" / "C09.json"
+    saved = ev.read_text() if ev.exists() else None
+    before = set((verif / "replays").glob("C09_*.json"))
+    subprocess.run(["git", "-C", repo, "worktree", "remove", "--force", wt], capture_output=True)
+    subprocess.check_call(["git", "-C", repo, "worktree", "add", "--detach", wt], stdout=subprocess.DEVNULL,
+                          stderr=subprocess.DEVNULL)
+    try:
+        subprocess.check_call(["git", "-C", wt, "apply", str(st / "ns_total_cost_mutant.diff")])
+        cmd = [str(verif / "check"), "C09", "--replay", str(st / "ns_plain_case.json")]
+        bad = subprocess.run(cmd, env={**os.environ, "SOLVOR_REPO": wt}, capture_output=True, text=True)
+        new = sorted(set((verif / "replays").glob("C09_*.json")) - before)
+        classes = [json.loads(f.read_text())["class"] for f in new]
+        for f in new:
+            f.unlink()
+        good = subprocess.run(cmd, env={**os.environ, "SOLVOR_REPO": repo}, capture_output=True, text=True)
+        ok = (bad.returncode == 1 and "VIOLATION property=C09" in bad.stdout and "KNOWN-FINDING" not in bad.stdout
+              and classes == ["cost_mismatch"] and good.returncode == 0)
+        print(f"mutant: exit {bad.returncode}, classes {classes}; unchanged tree: exit {good.returncode}")
+        print("SELFTEST " + ("PASSED" if ok else "FAILED"))
+        if not ok:
+            print(bad.stdout[-1500:], bad.stderr[-1500:], good.stdout[-500:], good.stderr[-1500:])
+        return 0 if ok else 1
+    finally:
+        subprocess.run(["git", "-C", repo, "worktree", "remove", "--force", wt], capture_output=True)
+        if saved is not None:
+            ev.write_text(saved)
+
+
+if __name__ == "__main__":
+    import sys
+    if "--selftest" in sys.argv:
+        sys.exit(selftest())
